@@ -647,6 +647,11 @@ pub fn run_one(run: u64, seed: u64) -> RunOut {
             chk.accept_cell(&Msg::ListenerFinish);
         }
         peer.send(&Msg::Goodbye).await;
+        if let Some(v) = peer.net.with_mon(|m| m.violations.clone()) {
+            for w in v.into_iter().take(2) {
+                chk.fail("wire-monitor", format!("{} at frame {}: {}", w.code, w.seq, w.detail));
+            }
+        }
         match or_quiescent(run_task).await {
             Some(Ok(Ok(()))) => chk.accept_cell(&Msg::Goodbye),
             other => chk.fail("accept-goodbye", format!("dispatcher result after the Goodbye exchange: {:?}", other.map(|r| r.map(|x| x.map_err(|e| e.to_string()))))),
